@@ -444,19 +444,19 @@ fn cfgs_for(prop: &str) -> Vec<Cfg> {
 fn cfg_for(prop: &str) -> Cfg {
     match prop {
         "C01" => Cfg { known: Default::default(), prop: "C01", dim: 2, flavour: Flavour::Edits, quick_runs: 40_000, thorough_runs: 4_000_000, max_steps: 40,
-            rule: "one evaluation = one seeded single-client history of up to 40 public editing calls (allocation, removal, link/unlink/sew/unsew in both forms, succeeding and failing, with F1/F2 faults) on a generated well-formed 2-map, the well-formedness predicate evaluated on a full snapshot after every call; distinct_nontrivial = distinct full map states reached after a call (hash of the whole snapshot)" },
+            rule: "one evaluation = one seeded single-client history of up to 40 public editing calls (allocation, removal incl. removals of linked or already removed darts that must be refused, link/unlink/sew/unsew in both forms, succeeding and failing, with F1/F2 faults) on a generated well-formed 2-map, the well-formedness predicate evaluated on a full snapshot after every call; distinct_nontrivial = distinct full map states reached after a call (hash of the whole snapshot)" },
         "C04" => Cfg { known: Default::default(), prop: "C04", dim: 2, flavour: Flavour::Sews, quick_runs: 40_000, thorough_runs: 4_000_000, max_steps: 30,
             rule: "one evaluation = one seeded history of sew/unsew-heavy calls on a 2-map with 1-4 attribute kinds; every successful sew/unsew is compared with the partition-based migration oracle; distinct_nontrivial = distinct full map states reached" },
         "C18" => Cfg { known: Default::default(), prop: "C18", dim: 2, flavour: Flavour::Alloc, quick_runs: 30_000, thorough_runs: 3_000_000, max_steps: 40,
-            rule: "one evaluation = one seeded history alternating allocation/removal/reuse with edits and data writes; distinct_nontrivial = distinct full map states reached" },
+            rule: "one evaluation = one seeded history alternating allocation/removal/reuse with edits and data writes, incl. removals of linked or already removed darts (the refusal, a panic, is caught inside the history); distinct_nontrivial = distinct full map states reached" },
         "C03" => Cfg { known: Default::default(), prop: "C03", dim: 2, flavour: Flavour::Queries, quick_runs: 20_000, thorough_runs: 2_000_000, max_steps: 25,
             rule: "one evaluation = one seeded history whose reached states are cross-checked (every dart, every policy) against the definition-level model; distinct_nontrivial = distinct full map states reached" },
         "C13" => Cfg { known: Default::default(), prop: "C13", dim: 2, flavour: Flavour::Triangulate, quick_runs: 40_000, thorough_runs: 4_000_000, max_steps: 2,
-            rule: "one evaluation = one seeded run of a triangulation kernel (fan, fan-convex, ear clipping in both orientations; right and wrong spare-dart counts; forced re-execution) on a generated simple polygon with 4-12 sides (strictly convex, star-shaped with reflex vertices, random radial; both orientations; isolated or with neighbour triangles glued on a random subset of sides), judged by the statement-level triangulation oracle; distinct_nontrivial = distinct full map states reached" },
+            rule: "one evaluation = one seeded run of a triangulation kernel (fan, fan-convex, ear clipping in both orientations; right and wrong spare-dart counts; forced re-execution) on a generated simple polygon with 4-12 sides (strictly convex, star-shaped with reflex vertices, random radial, general simple polygons obtained by 2-opt untangling of random points; both orientations; now and then an unusable spare dart; isolated or with neighbour triangles glued on a random subset of sides), judged by the statement-level triangulation oracle; distinct_nontrivial = distinct full map states reached" },
         "C14" => Cfg { known: Default::default(), prop: "C14", dim: 2, flavour: Flavour::Insert, quick_runs: 40_000, thorough_runs: 4_000_000, max_steps: 6,
             rule: "one evaluation = one seeded history of vertex insertions (single and k = 1..3, valid and invalid spare darts, counts and positions; forced re-execution) on embedded well-formed 2-maps incl. dangling darts, 1-free/0-free ends, boundary and interior edges, judged by the exact subdivision oracle (all other darts incl. dart 0 bit identical); distinct_nontrivial = distinct full map states reached" },
         "C15" => Cfg { known: Default::default(), prop: "C15", dim: 2, flavour: Flavour::Remesh, quick_runs: 30_000, thorough_runs: 3_000_000, max_steps: 12,
-            rule: "one evaluation = one seeded history of swap / cut / collapse calls on a perturbed split grid (with and without anchors), each successful call compared with the geometric reference model (expected set of oriented coordinate triangles, adjacency = geometric adjacency, counts, area, flags, anchors); distinct_nontrivial = distinct full map states reached" },
+            rule: "one evaluation = one seeded history of swap / cut / collapse calls on a perturbed split grid (no anchors, vertex+edge+face anchors, edge+face anchors; one material or two with an interior interface curve; now and then an unusable spare dart), each successful call compared with the geometric reference model (expected set of oriented coordinate triangles, adjacency = geometric adjacency, counts, area, flags, anchors of surviving cells and of the parts of subdivided cells); distinct_nontrivial = distinct full map states reached" },
         "C06" => Cfg { known: Default::default(), prop: "C06", dim: 2, flavour: Flavour::Edits, quick_runs: 16_000, thorough_runs: 1_600_000, max_steps: 30,
             rule: "histories leg of C06" },
         "C02" => Cfg { known: Default::default(), prop: "C02", dim: 3, flavour: Flavour::Edits, quick_runs: 25_000, thorough_runs: 2_500_000, max_steps: 30,
